@@ -601,16 +601,17 @@ type c09Item struct {
 const c09Sep = "\x01\x02\x03\x02\x01"
 
 type c09Runner struct {
-	items  []c09Item
-	outs   []string
-	called []bool
-	funcs  map[string]any
-	sprog  *parser.Program // sprintf batch
-	pprog  *parser.Program // printf batch
-	eprog  [2]*parser.Program
-	print  *parser.Program
-	ofmt   string
-	omode  string // OUTPUTMODE for the print program ("" / csv / tsv)
+	items    []c09Item
+	outs     []string
+	called   []bool
+	funcs    map[string]any
+	sprog    *parser.Program // sprintf batch
+	pprog    *parser.Program // printf batch
+	eprog    [2]*parser.Program
+	print    *parser.Program
+	ofmt     string
+	prevOfmt string
+	omode    string // OUTPUTMODE for the print program ("" / csv / tsv)
 }
 
 func c09Ladder(call func(args string) string) string {
@@ -653,6 +654,7 @@ func newC09Runner() *c09Runner {
 		"c09out":   func(i int, s string) { r.outs[i] = s; r.called[i] = true },
 		"c09ofmt":  func() string { return r.ofmt },
 		"c09omode": func() string { return r.omode },
+		"c09prev":  func() string { return r.prevOfmt },
 	}
 	head := `BEGIN { FS = "\001"; n = c09n(); for (i = 0; i < n; i++) { f = c09fmt(i); k = c09kind(i); s = c09nstar(i); `
 	r.sprog = awk.MustParse(head+c09Ladder(func(a string) string { return "r = sprintf(" + a + ")" })+"; c09out(i, r) } }", r.funcs)
@@ -660,7 +662,8 @@ func newC09Runner() *c09Runner {
 	// error programs: item 0's format with its stars list used as plain arguments (0..3 of them)
 	r.eprog[0] = awk.MustParse(`BEGIN { f = c09fmt(0); s = c09nstar(0); if (s == 0) r = sprintf(f); else if (s == 1) r = sprintf(f, c09star(0,0)); else if (s == 2) r = sprintf(f, c09star(0,0), c09star(0,1)); else r = sprintf(f, c09star(0,0), c09star(0,1), c09star(0,2)); c09out(0, r) }`, r.funcs)
 	r.eprog[1] = awk.MustParse(`BEGIN { f = c09fmt(0); s = c09nstar(0); if (s == 0) printf f; else if (s == 1) printf f, c09star(0,0); else if (s == 2) printf f, c09star(0,0), c09star(0,1); else printf f, c09star(0,0), c09star(0,1), c09star(0,2); c09out(0, "done") }`, r.funcs)
-	r.print = awk.MustParse(`BEGIN { OFMT = c09ofmt(); OUTPUTMODE = c09omode(); n = c09n(); for (i = 0; i < n; i++) print c09num(i) }`, r.funcs)
+	// c09prev: an OFMT that was in force (and used by one print and one CONVFMT-governed conversion) before the OFMT under test
+	r.print = awk.MustParse(`BEGIN { p = c09prev(); if (p != "") { OFMT = p; print 0.1; junk = 0.1 "" } OFMT = c09ofmt(); OUTPUTMODE = c09omode(); n = c09n(); for (i = 0; i < n; i++) print c09num(i) }`, r.funcs)
 	return r
 }
 
@@ -734,17 +737,18 @@ func (r *c09Runner) printfBatch(c *core.Ctx, items []c09Item, chars bool) []c09R
 // the main family: one conversion
 
 type c09Case struct {
-	Kind  string   `json:"kind"` // spec | pair | err | lit | print
-	Spec  *c09Spec `json:"spec,omitempty"`
-	Chars bool     `json:"chars"`
-	Args  []string `json:"args,omitempty"` // labels of the failing arguments (information)
-	FmtQ  string   `json:"fmtq,omitempty"` // Go-quoted format (err, lit, pair)
-	NArgs int      `json:"nargs,omitempty"`
-	Via   string   `json:"via,omitempty"`
-	Spec2 *c09Spec `json:"spec2,omitempty"`
-	OFMT  string   `json:"ofmt,omitempty"`
-	OMode string   `json:"output_mode,omitempty"`
-	Src   string   `json:"src,omitempty"`
+	Kind     string   `json:"kind"` // spec | pair | err | lit | print
+	Spec     *c09Spec `json:"spec,omitempty"`
+	Chars    bool     `json:"chars"`
+	Args     []string `json:"args,omitempty"` // labels of the failing arguments (information)
+	FmtQ     string   `json:"fmtq,omitempty"` // Go-quoted format (err, lit, pair)
+	NArgs    int      `json:"nargs,omitempty"`
+	Via      string   `json:"via,omitempty"`
+	Spec2    *c09Spec `json:"spec2,omitempty"`
+	OFMT     string   `json:"ofmt,omitempty"`
+	PrevOFMT string   `json:"prev_ofmt,omitempty"`
+	OMode    string   `json:"output_mode,omitempty"`
+	Src      string   `json:"src,omitempty"`
 }
 
 // c09CheckSpecs evaluates specs x all arguments in one mode. Failures are
@@ -1154,13 +1158,19 @@ var c09OFMTs = []string{"%.6g", "%.3g", "%.2f", "%e", "%g", "%.10g", "%8.3f", "%
 
 func c09CheckPrint(c *core.Ctx, e *c09Env, r *c09Runner, ofmt string) {
 	for _, omode := range []string{"", "csv", "tsv"} {
-		c09CheckPrintMode(c, e, r, ofmt, omode)
+		c09CheckPrintMode(c, e, r, ofmt, omode, "")
+	}
+	// OFMT assigned a second time in the same run: print follows the OFMT in force, whatever was in force (and used) before
+	for _, prev := range c09OFMTs {
+		if prev != ofmt && ofmt != "%g" && ofmt != "%G" { // %g without a precision is the recorded finding; not re-examined here
+			c09CheckPrintMode(c, e, r, ofmt, "", prev)
+		}
 	}
 }
 
 // c09CheckPrintMode: print of numbers under OFMT in one output mode (in csv
 // mode a formatted number with a leading blank is written quoted).
-func c09CheckPrintMode(c *core.Ctx, e *c09Env, r *c09Runner, ofmt, omode string) {
+func c09CheckPrintMode(c *core.Ctx, e *c09Env, r *c09Runner, ofmt, omode, prev string) {
 	nums := c09PrintNums()
 	var items []c09Item
 	var reqs []int
@@ -1178,17 +1188,21 @@ func c09CheckPrintMode(c *core.Ctx, e *c09Env, r *c09Runner, ofmt, omode string)
 		}
 	}
 	cres := e.h.run()
-	r.ofmt, r.omode = ofmt, omode
+	r.ofmt, r.omode, r.prevOfmt = ofmt, omode, prev
 	res := r.exec(r.print, items, false)
+	r.prevOfmt = ""
 	c.Eval(int64(len(nums)))
 	c.Add("transitions", int64(len(nums)))
 	c.Add("states", 1)
-	cs := c09Case{Kind: "print", OFMT: ofmt, OMode: omode}
+	cs := c09Case{Kind: "print", OFMT: ofmt, OMode: omode, PrevOFMT: prev}
 	if res.ErrString() != "" {
 		c.Fail("print-error", cs, firstLine(res.ErrString()))
 		return
 	}
 	lines := strings.Split(res.Out, "\n")
+	if prev != "" && len(lines) > 0 {
+		lines = lines[1:] // the line printed under the previous OFMT
+	}
 	if len(lines) != len(nums)+1 || lines[len(nums)] != "" {
 		c.Fail("print-lines", cs, fmt.Sprintf("%d lines for %d numbers", len(lines)-1, len(nums)))
 		return
@@ -1212,6 +1226,9 @@ func c09CheckPrintMode(c *core.Ctx, e *c09Env, r *c09Runner, ofmt, omode string)
 		}
 		if lines[i] != want {
 			sig := "print-nonintegral-not-ofmt"
+			if prev != "" {
+				sig += "_after-another-ofmt"
+			}
 			if omode != "" {
 				sig += "_outputmode=" + omode
 			}
@@ -1229,7 +1246,11 @@ func c09CheckPrintMode(c *core.Ctx, e *c09Env, r *c09Runner, ofmt, omode string)
 	}
 	sort.Strings(sigs)
 	for _, s := range sigs {
-		c.Fail(s, cs, "OFMT="+ofmt+" OUTPUTMODE="+omode+": "+strings.Join(bySig[s], "; "))
+		before := ""
+		if prev != "" {
+			before = " (before: " + prev + ")"
+		}
+		c.Fail(s, cs, "OFMT="+ofmt+before+" OUTPUTMODE="+omode+": "+strings.Join(bySig[s], "; "))
 	}
 }
 
@@ -1346,7 +1367,7 @@ func init() {
 			"x precisions (none, '.', literal, .* positive/negative/0) x a fixed table of 64 argument values (integers across the int64 range, out-of-range, fractional, tiny/huge/non-finite floats, " +
 			"strings numeric/non-numeric/empty/multi-byte/non-UTF-8, numeric input fields, unset), byte mode for all and character mode for c and s; each result of sprintf (and of the printf statement) " +
 			"is compared with C snprintf called with the argument converted the AWK way and the exact C type; plus every pair of conversions in one format (argument routing, %% and literal text), " +
-			"%% formats, too-few-argument and unknown-conversion formats (every byte) which must be run-time errors, and print of 65 numbers under 12 OFMT values in default, csv and tsv output mode. " +
+			"%% formats, too-few-argument and unknown-conversion formats (every byte) which must be run-time errors, and print of 65 numbers under 12 OFMT values in default, csv and tsv output mode, and under every ordered pair of different OFMT values assigned one after the other in one run (the first one used by a print and a string conversion). " +
 			"a state is one (format specification, mode); a transition one (specification, argument) evaluation; defined_cases counts those under the equality oracle; distinct = distinct produced strings",
 		Assumptions: []string{
 			"the installed C library's snprintf (glibc, C locale, 64-bit long) is the reference for what C printf produces",
